@@ -26,6 +26,9 @@ pub enum ValClass {
     Walk,
     /// one non-dyadic float repeated (zero spread, inexact power sums)
     FloatConst,
+    /// runs (length 1..6) over an alphabet of 2-3 non-dyadic floats of different magnitude:
+    /// interrupted plateaus `c, d, c, c, c` - constant windows reached with inexact running sums
+    FloatPlateaus,
 }
 
 pub const EXACT_CLASSES: [ValClass; 9] = [
@@ -52,11 +55,18 @@ pub const INT_CLASSES: [ValClass; 8] = [
     ValClass::Alternating,
 ];
 
-pub const FLOAT_CLASSES: [ValClass; 5] =
-    [ValClass::LargeOffset, ValClass::Uniform, ValClass::UnitFloat, ValClass::Walk, ValClass::FloatConst];
-
-pub const ALL_CLASSES: [ValClass; 14] = [
+pub const FLOAT_CLASSES: [ValClass; 6] = [
+    ValClass::LargeOffset,
+    ValClass::Uniform,
+    ValClass::UnitFloat,
+    ValClass::Walk,
     ValClass::FloatConst,
+    ValClass::FloatPlateaus,
+];
+
+pub const ALL_CLASSES: [ValClass; 15] = [
+    ValClass::FloatConst,
+    ValClass::FloatPlateaus,
     ValClass::Const,
     ValClass::Alphabet3,
     ValClass::SmallInt,
@@ -167,6 +177,25 @@ pub fn values(rng: &mut Rng, class: ValClass, len: usize) -> Vec<f64> {
         ValClass::FloatConst => {
             let c = rng.uniform(-100.0, 100.0);
             v.resize(len, c);
+        },
+        ValClass::FloatPlateaus => {
+            let k = rng.range_usize(2, 3);
+            let scale = [0.01, 1.0, 1.0, 10.0, 100.0][rng.below(5)];
+            let mut alpha = vec![rng.uniform(-100.0, 100.0) * scale];
+            for _ in 1..k {
+                alpha.push(if rng.chance(0.5) { rng.uniform(-5000.0, 5000.0) } else { rng.uniform(-100.0, 100.0) });
+            }
+            let mut cur = 0usize;
+            let mut left = rng.range_usize(1, 6);
+            for _ in 0..len {
+                if left == 0 {
+                    // mostly come back to the first letter: c, d, c, c, c, ...
+                    cur = if cur != 0 && rng.chance(0.7) { 0 } else { rng.below(k) };
+                    left = if cur == 0 { rng.range_usize(1, 6) } else { rng.range_usize(1, 2) };
+                }
+                v.push(alpha[cur]);
+                left -= 1;
+            }
         },
         ValClass::Walk => {
             let mut cur = rng.uniform(-10.0, 10.0);
